@@ -373,7 +373,7 @@ func (t *Topic) exit(deleted bool) error {
 	swapped := atomic.CompareAndSwapInt32(&t.exitFlag, 0, 1)
 	t.Unlock()
 	if !swapped {
-		return errors.New("exiting")
+		return errExiting
 	}
 
 	if deleted {
